@@ -19,6 +19,7 @@ import (
 	"net/http"
 	"net/http/httptrace"
 	nurl "net/url"
+	"reflect"
 	"strings"
 )
 
@@ -156,17 +157,38 @@ func buildRequest(ctx context.Context, method, url string, data interface{}) (*h
 
 func fillHeader(r *http.Request, m map[string]interface{}) {
 	for k, v := range m {
-		r.Header.Add(k, fmt.Sprint(v))
+		r.Header.Add(k, formatValue(v))
 	}
 }
 
 func buildFormQuery(u *nurl.URL, m map[string]interface{}) string {
 	query := u.Query()
 	for k, v := range m {
-		query.Add(k, fmt.Sprint(v))
+		query.Add(k, formatValue(v))
 	}
 
 	return query.Encode()
+}
+
+// formatValue 返回服务端请求解析器（httpx.Parse）可还原的文本：
+// 指针取其指向的值，切片、数组、字典写成 json 文本，其余用 fmt.Sprint。
+func formatValue(v interface{}) string {
+	rv := reflect.ValueOf(v)
+	for rv.Kind() == reflect.Ptr {
+		if rv.IsNil() {
+			return ""
+		}
+		rv = rv.Elem()
+	}
+
+	switch rv.Kind() {
+	case reflect.Slice, reflect.Array, reflect.Map:
+		if bs, err := json.Marshal(rv.Interface()); err == nil {
+			return string(bs)
+		}
+	}
+
+	return fmt.Sprint(rv.Interface())
 }
 
 func fillPath(u *nurl.URL, m map[string]interface{}) error {
@@ -181,7 +203,7 @@ func fillPath(u *nurl.URL, m map[string]interface{}) error {
 			if !ok {
 				return fmt.Errorf("缺少路径变量 %q", name)
 			}
-			value := fmt.Sprint(v)
+			value := formatValue(v)
 			if len(value) == 0 {
 				return fmt.Errorf("路径变量的值不能为空 %q", name)
 			}
